@@ -369,3 +369,38 @@ func span(o1, o2, d1, d2 float64) float64 { return o1 + o2 + d1 + d2 }
 func TwoSpans(o, d model3d.Coord3D) float64 {
 	return span(o.X, o.Y, d.X, d.Y) + span(o.Z, 0, d.Z, 1)
 }
+
+// want:THRESH the cap share is tested against the cap area alone.
+func PickPartBad(draw, shaft, capArea float64) int {
+	if draw < shaft {
+		return 0
+	} else {
+		if draw < capArea {
+			return 1
+		}
+		return 2
+	}
+}
+
+// clean:THRESH
+func PickPartGood(draw, shaft, capArea float64) int {
+	if draw < shaft {
+		return 0
+	} else if draw < shaft+capArea {
+		return 1
+	}
+	return 2
+}
+
+// silent:THRESH the draw is reduced before the next test.
+func PickPartReduced(draw, shaft, capArea float64) int {
+	if draw < shaft {
+		return 0
+	} else {
+		draw -= shaft
+		if draw < capArea {
+			return 1
+		}
+		return 2
+	}
+}
